@@ -44,6 +44,10 @@ let () =
         (String.concat " " (List.map (fun (k, f) -> Printf.sprintf "%d:%d" (int_of_nat k) (int_of_nat f)) files))
         (String.concat " " (List.map (function Some (k, _) -> string_of_int (int_of_nat k) | None -> "-") lines))
     | _ -> "?args");
+  (* cknear dt t (exact integers in a common unit, hexadecimal) -> nearest step, floor step *)
+  register "cknear" (fun t -> match t with
+    | [dt; tm] -> hex_of_z (ck_nearest_step (z_of_hex dt) (z_of_hex tm)) ^ " " ^ hex_of_z (ck_floor_step (z_of_hex dt) (z_of_hex tm))
+    | _ -> "?args");
   register "cktime" (fun t -> match ints t with
     | [dt; tm] -> string_of_int (int_of_nat (ck_ti_of_time (nat_of_int dt) (nat_of_int tm)))
     | _ -> "?args");
